@@ -41,7 +41,18 @@ ASSUMPTIONS = [
     'a fake OAuth flow client, requests built with aiohttp make_mocked_request and resolved through the real router (middlewares not mounted)',
 ]
 SHARDS = {'quick': 1, 'thorough': 8}
-FLOORS = {'accepted_username': 50, 'rejected_username': 1000, 'accepted_secret': 50, 'rejected_secret': 1000, 'contract_evaluations': 63}
+FLOORS = {
+    'accepted_username': 50, 'rejected_username': 1000, 'accepted_secret': 50, 'rejected_secret': 1000, 'contract_evaluations': 63,
+    # acceptance path (about half of the minimum observed over quick seeds 0..4)
+    'accept_calls_insert_new_user': 4700, 'accept_calls_check_valid_new_user': 1100, 'accept_outcome_created': 850, 'acceptance_rejected': 6800,
+    'stored_rows_judged': 1700, 'normalisable_username_inputs': 3300, 'normalisable_secret_inputs': 1200,
+    'case_variant_username_inputs': 800, 'case_variant_secret_inputs': 300,
+    'non_ascii_normalisable_username_inputs': 1400, 'non_ascii_normalisable_secret_inputs': 550, 'case_mapped_non_ascii_username_inputs': 150,
+    'case_mapped_non_ascii_secret_inputs': 70,
+    'normalisers_username': 12, 'normalisers_secret': 12,
+    'route_requests_rest': 1400, 'route_requests_form': 700, 'route_requests_oauth': 750, 'route_outcome_accepted': 650, 'route_outcome_created': 190,
+    'rest_with_secret_test_deployment': 500,
+}
 
 LOWER = 'abcdefghijklmnopqrstuvwxyz'
 DIGITS = '0123456789'
@@ -470,7 +481,7 @@ def mutate(rng, core, kind):
     """one step from a string towards a normalisable neighbour; returns (string, mutation name)"""
     conf = confusables()
     letters = [i for i, c in enumerate(core) if c in LOWER]
-    m = rng.choice(['upper-one', 'upper-one', 'title', 'upper-all', 'confusable', 'confusable', 'confusable-case', 'wrap', 'wrap', 'insert', 'percent',
+    m = rng.choice(['upper-one', 'upper-one', 'title', 'upper-all', 'confusable', 'confusable', 'confusable-case', 'confusable-case', 'wrap', 'wrap', 'insert', 'percent',
                     'separator', 'edge-separator', 'combining'])
     if m in ('upper-one', 'title', 'upper-all', 'combining') and not letters:
         m = 'confusable'
@@ -723,6 +734,8 @@ def _note_input_class(ctx, kind, s, cls):
             ctx.count(f'case_variant_{kind}_inputs')
         if isinstance(s, str) and any(ord(c) > 127 for c in s):
             ctx.count(f'non_ascii_normalisable_{kind}_inputs')
+            if 'lower' in reach or 'casefold' in reach:  # e.g. KELVIN SIGN, LONG S: not ASCII, but the case mapping is
+                ctx.count(f'case_mapped_non_ascii_{kind}_inputs')
     return reach
 
 
@@ -934,3 +947,27 @@ def acceptance_phases(ctx):
     finally:
         A.is_test_deployment = saved_test_deployment
         loop.close()
+
+
+# ---------------------------------------------------------------------------------------------------
+# Validation of the acceptance-path phases (scratch worktree of /repo, one change at a time, quick tier, seed 0):
+#   seeded C28-agent6: check_valid_new_user validates username.lower(), the INSERT stores the original
+#       -> exit 1  acceptance/username/uppercase-accepted, acceptance/username/non-ascii-accepted (KELVIN SIGN)
+#   B1 insert_new_user validates hail_credentials_secret_name.strip(), stores the raw value
+#       -> exit 1  acceptance/secret/{trailing-newline,control-char,non-ascii}-accepted, acceptance/secret/accepts-invalid
+#   B2 check_valid_new_user skips is_valid_username for service accounts
+#       -> exit 1  acceptance/username/{uppercase,non-ascii,control-char,trailing-newline}-accepted, .../accepts-invalid
+#   B3 POST /users: username = str(post['username']).strip()
+#       -> exit 1  acceptance/username/{trailing-newline,control-char,non-ascii}-accepted, stored/username-differs-from-input
+#   B4 POST /api/v1alpha/users/{user}/create: match_info['user'].lower()
+#       -> exit 1  acceptance/username/uppercase-accepted, stored/username-differs-from-input
+#   B6 insert_new_user validates the secret name only when hail_identity is given
+#       -> exit 1  acceptance/secret/{uppercase,non-ascii,control-char,trailing-newline}-accepted
+#   B7 check_valid_new_user validates unicodedata.normalize('NFKC', username)
+#       -> exit 1  acceptance/username/non-ascii-accepted
+#   B5 (not a break of the property, stays silent as it should): the OAuth signup lower-cases the name it *derives* from the e-mail local
+#       part before insert_new_user; the stored name is in the language -> exit 0
+# Not generated on purpose: names longer than 255 characters (in the language, accepted by both validators, but the varchar(255) column
+# refuses them in strict mode).  Observed on the unchanged tree and not a verdict: POST /api/v1alpha/users/{user}/create answers 500
+# (ValueError "Reason cannot contain \r or \n" from web.HTTPBadRequest(reason=...)) instead of 400 when the rejected username contains a
+# line break - still a rejection, nothing is stored.
